@@ -1170,7 +1170,30 @@ pub fn c13(thorough: bool, replay: Option<String>) -> i32 {
 // ---------------------------------------------------------------------------
 // C17 — an argument reported as unused cannot influence the result
 
-const USE_CLASSES: [&str; 8] = ["direct", "via-defun", "via-inline", "via-let", "via-lambda-capture", "under-condition-on-another-parameter", "only-in-raise", "not-at-all"];
+const USE_CLASSES: [&str; 18] = [
+    "direct",
+    "via-defun",
+    "via-inline",
+    "via-let",
+    "via-lambda-capture",
+    "under-condition-on-another-parameter",
+    "only-in-raise",
+    "not-at-all",
+    // conditionals inside conditionals: the use sits in an `if` that is a whole arm / the whole condition of another `if`
+    "in-else-if-arm",
+    "in-nested-then-arm",
+    "in-if-used-as-condition",
+    "in-conditional-helper-called-as-arm",
+    "after-assert-chain",
+    // one conditional helper shared by every parameter of this class (the same `if` is expanded at several call sites)
+    "via-shared-conditional-helper",
+    // carried through a recursive function to its base case
+    "via-recursive-function",
+    "let-bound-used-in-if-arm",
+    "in-if-arm-next-to-a-multibyte-operator",
+    "rest-tail-of-a-primitive",
+];
+const NCLS: u64 = USE_CLASSES.len() as u64;
 
 fn usecheck_program(k: usize, classes: &[usize], shape: usize, sigil: &'static str) -> Prog {
     let names: Vec<String> = (0..k).map(|i| format!("p{}", i)).collect();
@@ -1212,6 +1235,37 @@ fn usecheck_program(k: usize, classes: &[usize], shape: usize, sigil: &'static s
             "via-lambda-capture" => E::Apply(Box::new(E::Lambda(vec![names[i].clone()], Pat::list(vec![Pat::n("Z")]), Box::new(E::prim("c", vec![E::Var(names[i].clone()), E::v("Z")])))), Box::new(E::List(vec![E::int(4)]))),
             "under-condition-on-another-parameter" => E::If(Box::new(other), Box::new(p), Box::new(E::int(0))),
             "only-in-raise" => E::If(Box::new(E::prim("l", vec![E::int(5)])), Box::new(E::prim("x", vec![p])), Box::new(E::int(7))),
+            "in-else-if-arm" => E::If(Box::new(E::prim("=", vec![E::prim("l", vec![other.clone()]), E::int(1)])), Box::new(E::int(11)), Box::new(E::If(Box::new(other), Box::new(E::prim("c", vec![p, E::int(1)])), Box::new(E::int(12))))),
+            "in-nested-then-arm" => E::If(Box::new(other.clone()), Box::new(E::If(Box::new(E::prim("l", vec![other])), Box::new(E::int(13)), Box::new(p))), Box::new(E::int(14))),
+            "in-if-used-as-condition" => E::If(Box::new(E::If(Box::new(other), Box::new(p), Box::new(E::int(0)))), Box::new(E::int(15)), Box::new(E::int(16))),
+            "in-conditional-helper-called-as-arm" => {
+                helpers.push(Helper::Fun { name: format!("hc{}", i), inline: false, params: Pat::list(vec![Pat::n("C"), Pat::n("X")]), body: E::If(Box::new(E::v("C")), Box::new(E::v("X")), Box::new(E::int(17))) });
+                E::If(Box::new(E::prim("l", vec![other.clone()])), Box::new(E::int(18)), Box::new(E::call(&format!("hc{}", i), vec![other, p])))
+            }
+            "after-assert-chain" => E::If(Box::new(E::prim("=", vec![other.clone(), E::int(77)])), Box::new(E::prim("x", vec![])), Box::new(E::If(Box::new(E::prim("=", vec![other, E::int(78)])), Box::new(E::prim("x", vec![])), Box::new(E::prim("c", vec![p, E::int(2)]))))),
+            "via-shared-conditional-helper" => {
+                if !helpers.iter().any(|h| matches!(h, Helper::Fun { name, .. } if name == "sel")) {
+                    helpers.push(Helper::Fun { name: "sel".into(), inline: false, params: Pat::list(vec![Pat::n("C"), Pat::n("X")]), body: E::If(Box::new(E::v("C")), Box::new(E::v("X")), Box::new(E::int(19))) });
+                }
+                E::call("sel", vec![other, p])
+            }
+            "via-recursive-function" => {
+                if !helpers.iter().any(|h| matches!(h, Helper::Fun { name, .. } if name == "walk")) {
+                    helpers.push(Helper::Fun { name: "walk".into(), inline: false, params: Pat::list(vec![Pat::n("L"), Pat::n("X")]), body: E::If(Box::new(E::prim("l", vec![E::v("L")])), Box::new(E::call("walk", vec![E::prim("r", vec![E::v("L")]), E::v("X")])), Box::new(E::v("X"))) });
+                }
+                E::call("walk", vec![other, p])
+            }
+            "let-bound-used-in-if-arm" => E::Let(LetKind::Let, vec![(format!("LB{}", i), p)], Box::new(E::If(Box::new(other), Box::new(E::Var(format!("LB{}", i))), Box::new(E::int(20))))),
+            "in-if-arm-next-to-a-multibyte-operator" => {
+                let k1 = |h: &str| E::Lit(format!("0x{}", h), T::A(hex::decode(h).unwrap()));
+                let verify = E::prim("secp256k1_verify", vec![
+                    k1("02390b19842e100324163334b16947f66125b76d4fa4a11b9ccdde9b7398e64076"),
+                    k1("85932e4d075615be881398cc765f9f78204033f0ef5f832ac37e732f5f0cbda2"),
+                    k1("481477e62a1d02268127ae89cc58929e09ad5d30229721965ae35965d098a5f630205a7e69f4cb8084f16c7407ed7312994ffbf87ba5eb1aee16682dd324943e"),
+                ]);
+                E::If(Box::new(other), Box::new(E::prim("c", vec![verify, p])), Box::new(E::int(21)))
+            }
+            "rest-tail-of-a-primitive" => E::Call("sha256".into(), vec![E::int(1)], Some(Box::new(E::prim("c", vec![p, E::Quote(T::nil())])))),
             _ => E::int(9),
         };
         items.push(e);
@@ -1341,7 +1395,7 @@ fn check_c17(st: &mut Stats, k: usize, classes: &[usize], shape: usize, sigil: &
 
 pub fn c17(thorough: bool, replay: Option<String>) -> i32 {
     let mut rep = Report::new("C17", if thorough { "thorough" } else { "quick" }, "exploration");
-    rep.rule = "programs with k lower-case parameters in flat, nested and dotted parameter lists where each parameter is independently in one of 8 usage classes (direct; only through a defun / an inline / a let / a lambda capture; only under a condition on another parameter; only as the argument of a raise; not at all): ALL 8^k assignments for k <= 3 (thorough: k = 4 as well), 3 list shapes, 2 sigils. \
+    rep.rule = "programs with k lower-case parameters in flat, nested and dotted parameter lists where each parameter is independently in one of 18 usage classes (direct; only through a defun / an inline / a let / a lambda capture; only under a condition on another parameter; only as the argument of a raise; not at all; and inside conditionals nested in conditionals: in an else-if arm, in a nested then-arm, in an `if` used as a condition, in a conditional helper called as a whole arm, after a chain of assertions; through one conditional helper shared by several parameters; through a recursive function; let-bound and used in an `if` arm; in an `if` arm next to a multi-byte operator; as the &rest tail of a primitive): ALL 18^k assignments for k <= 3 (thorough: k = 4 as well), 3 list shapes, 2 sigils. \
         For every parameter reported by check_parameters_used_compileform, ALL pairs of argument valuations differing only in that parameter (values from {(), 5, (7 . 9)}, the other parameters over the same alphabet, all combinations) must give identical outcomes (same value, or failure on both sides) of the compiled program under clvmr. non-trivial = distinct (program, reported parameter) pairs confirmed non-interfering"
         .to_string();
     rep.assumptions = vec!["completeness of the report is not claimed by the property and not checked (counted for information)".to_string()];
@@ -1355,15 +1409,15 @@ pub fn c17(thorough: bool, replay: Option<String>) -> i32 {
     let mut plan: Vec<(usize, Vec<usize>, usize, &'static str)> = vec![];
     let maxk = if thorough { 4 } else { 3 };
     for k in 1..=maxk {
-        let total = 8u64.pow(k as u32);
+        let total = NCLS.pow(k as u32);
         for a in 0..total {
-            let classes: Vec<usize> = (0..k).map(|i| ((a / 8u64.pow(i as u32)) % 8) as usize).collect();
+            let classes: Vec<usize> = (0..k).map(|i| ((a / NCLS.pow(i as u32)) % NCLS) as usize).collect();
             for shape in 0..3 {
                 if shape == 2 && k < 2 {
                     continue;
                 }
                 for s in sigils {
-                    if !thorough && k == 3 && s != sigils[0] && shape != 0 {
+                    if !thorough && k == 3 && (s != sigils[0] || shape != 0) {
                         continue;
                     }
                     plan.push((k, classes.clone(), shape, s));
@@ -1376,6 +1430,6 @@ pub fn c17(thorough: bool, replay: Option<String>) -> i32 {
         let (k, classes, shape, s) = &plan[i as usize];
         check_c17(st, *k, classes, *shape, s);
     });
-    rep.add_sub("usage-classes", &format!("all 8^k usage-class assignments for k = 1..{} x 3 parameter-list shapes x 2 sigils ({} programs), each with all 3^k valuations", maxk, n), n, true, capped, st);
+    rep.add_sub("usage-classes", &format!("all 18^k usage-class assignments for k = 1..{} x 3 parameter-list shapes x 2 sigils ({} programs), each with all 3^k valuations", maxk, n), n, true, capped, st);
     rep.finish()
 }
